@@ -25,6 +25,12 @@ func (p *Plenc) Marshal(data []byte, value interface{}) ([]byte, error) {
 		if typ.Kind() == reflect.Map {
 			ptr = *(*unsafe.Pointer)(ptr)
 		}
+	} else if typ.Kind() != reflect.Map && isDirectIface(typ) {
+		// A value the size and shape of a pointer is kept in the interface
+		// itself rather than being pointed to by it. The codecs need a
+		// pointer to the value
+		val := ptr
+		ptr = unsafe.Pointer(&val)
 	}
 
 	c, err := p.CodecForType(typ)
@@ -40,6 +46,21 @@ func (p *Plenc) Marshal(data []byte, value interface{}) ([]byte, error) {
 	}
 
 	return c.Append(data, ptr, nil), nil
+}
+
+// isDirectIface reports whether values of type typ are stored directly in an
+// interface value. This is the case for pointer-shaped types: pointers, maps
+// and the like, and structs and arrays with just one such field or element.
+func isDirectIface(typ reflect.Type) bool {
+	switch typ.Kind() {
+	case reflect.Ptr, reflect.Map, reflect.Chan, reflect.Func, reflect.UnsafePointer:
+		return true
+	case reflect.Struct:
+		return typ.NumField() == 1 && isDirectIface(typ.Field(0).Type)
+	case reflect.Array:
+		return typ.Len() == 1 && isDirectIface(typ.Elem())
+	}
+	return false
 }
 
 func (p *Plenc) Unmarshal(data []byte, value interface{}) error {
